@@ -405,7 +405,63 @@ theorem facts_guard :
     Gen.Facts.c19MaxBlockLen = some 1048576 ∧ Gen.Facts.c19MaxBlockCmp = Base.Cmp.gt ∧
     Gen.Facts.c19HeaderEofOnly = some true ∧ Gen.Facts.c19HeaderNameChecked = some true ∧
     Gen.Facts.c19ReadUsesAllTimes = some true ∧ Gen.Facts.c19WriterSplitsBySize = some true ∧
-    Gen.Facts.c19WriterStateLocal = some true ∧ Gen.Facts.c19KeyFieldIsBytes = some true := by decide
+    Gen.Facts.c19WriterStateLocal = some true ∧ Gen.Facts.c19KeyFieldIsBytes = some true ∧
+    Gen.Facts.c19LoadApiWholeBody = some true ∧
+    (∃ m, Gen.Facts.c19MaxCachedRcode = some m ∧ m < 16) := by
+  refine ⟨by decide, by decide, by decide, by decide, by decide, by decide, by decide, by decide, by decide, by decide, by decide, ?_⟩
+  exact ⟨_, rfl, by decide⟩
+
+/-! ### Every entry the plugin stores can be packed by `writeDump`; the API load reads the whole dump -/
+
+/-- With the rcodes of stored responses bounded by an arm below 16, every
+stored message (no OPT) packs. -/
+theorem stored_packs (m rc : Nat) (hm : m < 16) (h : admitted (some m) rc) : packs rc false = true := by
+  simp only [admitted] at h
+  simp only [packs, Bool.or_false, decide_eq_true_eq]
+  omega
+
+theorem dump_packs_all (m : Nat) (hm : m < 16) (rcs : List Nat) (h : ∀ rc ∈ rcs, admitted (some m) rc) :
+    dumpPacks rcs = true := by
+  unfold dumpPacks
+  rw [List.all_eq_true]
+  intro rc hrc
+  exact stored_packs m rc hm (h rc hrc)
+
+/-- **C19 (the dump of what the plugin stored never aborts on an unpackable
+entry)**, instantiated with the regenerated fact: whatever responses
+`saveRespToCache` admitted, `writeDump` packs them all. Fails to type-check
+when the switch gains a default arm or an arm for an extended rcode. -/
+theorem dump_packs_on_this_tree (rcs : List Nat) (h : ∀ rc ∈ rcs, admitted Gen.Facts.c19MaxCachedRcode rc) :
+    dumpPacks rcs = true :=
+  dump_packs_all 3 (by decide) rcs h
+
+/-- A default arm admits BADCOOKIE (23) next to ordinary answers, and that dump aborts: the bound is needed. -/
+example : admitted none 23 ∧ dumpPacks [0, 23, 0] = false := ⟨trivial, by decide⟩
+
+/-- **C19 (the API load is the file load).** A handler that hands the whole
+body to `readDump` reloads every entry of an intact dump of any size. -/
+theorem api_reload_all (enc : List E → Bytes) (dec : Bytes → Option (List E)) (hcodec : ∀ b, dec (enc b) = some b)
+    (blocks : List (List E)) (hfit : ∀ b ∈ blocks, (enc b).length ≤ maxBlock) :
+    apiLoad dec (blocks.length + 1) none (plain enc blocks) = (blocks.flatten, false) :=
+  reload_all enc dec hcodec blocks hfit
+
+/-- The same on this tree: whatever number `l` a cap would have, the handler described by the regenerated fact has none. -/
+theorem api_reload_all_on_this_tree (enc : List E → Bytes) (dec : Bytes → Option (List E)) (hcodec : ∀ b, dec (enc b) = some b)
+    (blocks : List (List E)) (hfit : ∀ b ∈ blocks, (enc b).length ≤ maxBlock) (l : Nat) :
+    apiLoad dec (blocks.length + 1) (apiLimit Gen.Facts.c19LoadApiWholeBody l) (plain enc blocks) = (blocks.flatten, false) :=
+  api_reload_all enc dec hcodec blocks hfit
+
+/-- A handler that caps the body below the size of an intact dump reports an
+error for it and loads only the blocks wholly inside the cap: the hypothesis
+`limit = none` of `api_reload_all` is needed. -/
+theorem api_limit_loses_dump (enc : List E → Bytes) (dec : Bytes → Option (List E)) (hcodec : ∀ b, dec (enc b) = some b)
+    (blocks : List (List E)) (hfit : ∀ b ∈ blocks, (enc b).length ≤ maxBlock) (l : Nat)
+    (hl : l < (plain enc blocks).length) :
+    apiLoad dec (blocks.length + 1) (some l) (plain enc blocks) =
+      ((whole enc blocks ((plain enc blocks).take l)).flatten, true) := by
+  have hn : ¬ (plain enc blocks).length ≤ l := by omega
+  simp only [apiLoad, hn, if_false]
+  exact load_prefix enc dec hcodec blocks hfit _ false _ (List.take_prefix _ _) (fun h => by cases h) (by omega)
 
 /-! ### Non-vacuity: two blocks over a toy codec (`enc` = identity on byte lists) -/
 def encT : List UInt8 → Bytes := id
